@@ -106,6 +106,15 @@ EvalLog(tree, failAt, n) ==   \* <<log, failed>>
                                 IF r[2] THEN <<acc \o r[1], TRUE>> ELSE Kids(i + 1, acc \o r[1])
        IN Kids(1, <<n>>)
 
+\* ---- parsley.Parse with transformation and static checking enabled (parse.go) ------------------------------------
+\* the tree the parser returned is transformed first; the static check then walks the TRANSFORMED tree (nodes replaced by
+\* their transformer's result are terminals now, their subtrees are gone); the first failure of either pass aborts
+Transformed(tree) == [i \in 1..Len(tree) |-> IF HasTransformer(tree[i]) THEN [k |-> "term", cap |-> "", kids |-> <<>>] ELSE tree[i]]
+ParseApiLog(tree, tfail, cfail) ==     \* <<transform log, check log, failed>>
+  LET tl == TransformLog(tree, tfail, 1) IN
+  IF tl[2] THEN <<tl[1], <<>>, TRUE>>
+  ELSE LET t2 == Transformed(tree) IN <<tl[1], CheckLog(t2, cfail), CheckFails(t2, cfail)>>
+
 \* evaluation needs an interpreter for every non-terminal
 Evaluable(tree) == \A n \in 1..Len(tree) : tree[n].k = "nt" => tree[n].cap # "none"
 
